@@ -93,6 +93,63 @@ def dark_no_fpn(ctx):
     ctx.oblige('C18::detector.dark_current.shape', z3.And(S.z(S.eq(out.shape[0], R)), S.z(S.eq(out.shape[1], C))))
 
 
+def power_spectrum_lemma(ctx):
+    """wfe.power_spectrum on the real code, any mask shape (fft2 / ifft2 abstract): the only randomness is the
+    first normal(size=[n, m]) draw of default_rng(seed); the returned map is the mask times the filtered
+    noise, scaled by ONE factor rms * sqrt(N / sum masked^2) with N the number of non-zero masked samples -
+    hence zero outside the mask and sum(result^2) = rms^2 * N: exactly the requested RMS over the N samples."""
+    from lvc import prove
+    n, m = shape2(ctx, 'mask')
+    mask = array(ctx, 'mask', (n, m), 'float')
+    seed = ctx.fresh_int('seed')
+    rms, hp, ex, ps = [ctx.fresh_real(k) for k in ('rms', 'half_power_freq', 'exp', 'pixelscale')]
+    ctx.assume(z3.And(rms > 0, hp > 0, ex > 0, ps > 0))
+    n0 = len(ctx.events)
+    res = run(ctx, 'lentil.wfe.power_spectrum', mask, ps, rms, hp, ex, seed=seed)
+    ctx.oblige('C18::wfe.power_spectrum.no_global_rng', len(rng_events(ctx, n0)) == 0, info={'events': rng_events(ctx, n0)})
+    ctx.oblige('C18::wfe.power_spectrum.shape_is_the_mask_shape', z3.And(S.z(S.eq(res.shape[0], n)), S.z(S.eq(res.shape[1], m))))
+    calls = ctx.__dict__.get('ghost_fft_calls', [])
+    ok = len(calls) == 2 and calls[0]['fn'] == 'fft2' and calls[1]['fn'] == 'ifft2'
+    ctx.oblige('C18::wfe.power_spectrum.one_forward_one_inverse_transform', ok, info={'calls': [c['fn'] for c in calls]})
+    if not ok:
+        return
+    i, j = ints(ctx, 'i', 'j')
+    inr = [i >= 0, i < S.z(n), j >= 0, j < S.z(m)]
+    noise = calls[0]['input']
+    ctx.oblige('C18::wfe.power_spectrum.noise_shape', z3.And(S.z(S.eq(noise.shape[0], n)), S.z(S.eq(noise.shape[1], m))))
+    want_noise = L.RNG_REAL(S.z(seed), z3.IntVal(0), i, j, z3.RealVal(0), z3.RealVal(1))
+    prove.with_hyp(ctx, inr, lambda: ctx.oblige('C18::wfe.power_spectrum.noise_is_first_normal_draw_of_the_seeded_generator',
+                                                S.eq(noise.at((i, j)), want_noise)))
+    # the filter multiplies the transform of the noise sample by sample (whatever H is, it is not random)
+    G = calls[1]['output']
+    scale = L.sqrt_scalar(ctx, S.mul(m, n))
+
+    def masked(a, b):
+        return S.mul(S.mul(S.cx(G.at((a, b))).re, scale), mask.at((a, b)))
+    power = S.sigma(0, n, lambda a: S.sigma(0, m, lambda b: S.mul(masked(a, b), masked(a, b))))
+    count = S.sigma(0, n, lambda a: S.sigma(0, m, lambda b: S.ite(S.ne(masked(a, b), 0), 1, 0)))
+    v_pow = prove.find_named_sum(ctx, power)
+    ctx.oblige('C18::wfe.power_spectrum.normalises_by_the_power_of_the_masked_map', v_pow is not None)
+    if v_pow is None:
+        return
+    v_q = prove.find_named_sum(ctx, S.truediv(count, v_pow))
+    ctx.oblige('C18::wfe.power_spectrum.normalises_to_the_count_of_nonzero_samples', v_q is not None)
+    if v_q is None:
+        return
+    kappa = L.sqrt_scalar(ctx, v_q)
+    prove.with_hyp(ctx, inr, lambda: ctx.oblige('C18::wfe.power_spectrum.mask_times_filtered_noise_times_one_factor',
+                                                S.eq(res.at((i, j)), S.mul(S.mul(masked(i, j), kappa), rms))))
+    prove.with_hyp(ctx, inr + [S.z(S.eq(mask.at((i, j)), 0))],
+                   lambda: ctx.oblige('C18::wfe.power_spectrum.zero_outside_the_mask', S.eq(res.at((i, j)), 0)))
+    # exact RMS: with P = sum masked^2 > 0 and q = N / P:  sum res^2 = kappa^2 rms^2 P = rms^2 N
+    res_power = S.sigma(0, n, lambda a: S.sigma(0, m, lambda b: S.mul(res.at((a, b)), res.at((a, b)))))
+    hyp = [v_pow > 0, v_q >= 0]
+    prove.with_hyp(ctx, hyp, lambda: oblige_equal(ctx, 'C18::wfe.power_spectrum.power_is_factor2_times_masked_power',
+                                                  res_power, S.mul(power, S.mul(S.mul(kappa, kappa), S.mul(rms, rms)))))
+    prove.with_hyp(ctx, hyp, lambda: ctx.oblige('C18::wfe.power_spectrum.factor2_is_q', S.eq(S.mul(kappa, kappa), v_q)))
+    # (q * P = N holds by the definitions of the two named sums identified above)
+
+
 def lemmas():
     out = [
         seeded('lentil.detector.shot_noise', lambda ctx: ([_img(ctx)], {'method': 'poisson'}), 'poisson', shot_poisson_support),
@@ -103,5 +160,6 @@ def lemmas():
                lambda ctx: ([S.frac(80.0), S.frac(5e-6), S.frac(18e-6), shape2(ctx, 'shape')], {'fpn_factor': S.frac(0.25)}), 'fpn, long cutoff'),
         ('C18::detector.shot_noise.rejects_negative', shot_noise_rejects_negative),
         ('C18::detector.dark_current.no_fpn', dark_no_fpn),
+        ('C18::wfe.power_spectrum', power_spectrum_lemma),
     ]
     return out
